@@ -8,6 +8,10 @@ D  Header.tla: Sem(L) (the format's assignment of substreams, CRCs and kinds to 
 R  every layout TLC emits (sampled in quick) is written by the independent reference writer with real coders and further
    physical choices drawn from the seed (coder chain per folder, packed CRCs, packpos > 0, kDummy padding, EmptyFile vector,
    partially defined time/attribute vectors, non-minimal NUMBERs, raw / LZMA / AES header) and read by py7zr.
+G  Folder.tla: the coder graph of a folder (record order, bind pairs in any order) against the reader's walk; every well-formed
+   graph of <= 4 simple coders from GenFolder x coder chains that do not commute x CRC placement is written by the reference
+   writer and read by py7zr; the parsed pairs and the pipeline the reader built are validated by TraceFolder.  Negative
+   control: the reader that decodes in record order.
 T  TraceHeader: listing, extractall(factory) and extractall(directory) compared with Sem(L): names, kinds, folder, CRC known, sizes, bytes,
    timestamps and attributes.  The third-party fixtures are compared member by member with the reference reader.
 """
@@ -279,6 +283,149 @@ def fixture_case(case):
     return out
 
 
+GRAPH_CHAINS = {1: [["lzma2"], ["copy"], ["bzip2"]],
+                2: [["bcj", "lzma2"], ["delta", "lzma2"], ["bcj", "copy"], ["bcj", "deflate"], ["lzma2", "aes"], ["copy", "lzma2"],
+                    ["delta", "lzma"], ["bcj", "lzma"], ["bcj", "bzip2"], ["copy", "aes"]],
+                3: [["delta", "bcj", "lzma2"], ["bcj", "delta", "lzma2"], ["bcj", "lzma2", "aes"], ["arm", "ppc", "lzma2"],
+                    ["delta", "lzma2", "aes"], ["bcj", "deflate", "aes"]],
+                4: [["delta", "bcj", "lzma2", "aes"], ["bcj", "delta", "lzma2", "aes"], ["arm", "delta", "bcj", "lzma2"]]}
+
+
+def _graph_data(seed, k):
+    """content on which delta, the branch filters and the compressors all act (none of the chains commutes on it)"""
+    R = random.Random(seed * 131 + k)
+    code = b"".join(bytes([0xE8]) + R.randrange(0, 4000).to_bytes(4, "little") + bytes([0x90, R.randrange(256)]) for _ in range(120))
+    arm = b"".join(R.randrange(0, 1 << 20).to_bytes(3, "little") + b"\xeb" for _ in range(100))
+    ppc = b"".join(bytes([0x48 | R.randrange(4)]) + R.randrange(0, 1 << 16).to_bytes(2, "big") + bytes([(R.randrange(64) << 2) | 1]) for _ in range(100))
+    return code + arm + ppc + bytes(R.randrange(256) for _ in range(R.choice([0, 15, 16, 17, 700])))
+
+
+def graph_case(case):
+    """one folder whose coder records stand in the positions / whose bind pairs are written in the order of a GenFolder graph"""
+    py7zr = import_py7zr()
+    import py7zr.archiveinfo as ai
+    import copy
+    g, chain, crc, nfiles, seed = case
+    n, order = g["n"], list(g["order"])
+    natural = [[order[j + 1], order[j]] for j in range(n - 1)]
+    pairs = [list(p) for p in g["pairs"]]
+    datas = [_graph_data(seed, k) for k in range(nfiles)]
+    lay = {"files": [{"name": f"m{k}.bin", "data": d} for k, d in enumerate(datas)],
+           "folders": [{"nfiles": nfiles, "coders": [{"id": c} for c in chain], "crc": crc,
+                        "record_order": order, "bind_order": [natural.index(p) for p in pairs]}],
+           "password": "pw" if "aes" in chain else None, "header": "raw"}
+    try:
+        raw, _ = layouts.write_archive(lay)
+        ref = layouts.ref_members(raw, lay["password"])
+        if [bytes(m["data"]) for m in ref] != datas:
+            return {"e": "skip", "why": "reference reader disagrees with reference writer"}
+    except layouts.RefCodecError as e:
+        return {"e": "skip", "why": f"reference writer/reader: {e}"}
+    log = []
+    real_dec, real_get = ai.SevenZipDecompressor, ai.Folder.get_decompressor
+
+    def spy_dec(coders, *a, **kw):
+        log.append(list(coders))
+        return real_dec(coders, *a, **kw)
+
+    built = []
+
+    def spy_get(self, *a, **kw):
+        k0 = len(log)
+        d = real_get(self, *a, **kw)
+        if len(log) > k0 and not built:
+            f2 = copy.copy(self)
+            f2.unpacksizes = list(range(len(self.coders)))
+            built.append({"n": len(self.coders), "pairs": [[b.incoder, b.outcoder] for b in self.bindpairs],
+                          "order": [next(k for k, c in enumerate(self.coders) if c is x) for x in log[k0]],
+                          "main": f2.get_unpack_size()})
+        return d
+
+    ai.SevenZipDecompressor, ai.Folder.get_decompressor = spy_dec, spy_get
+    obs = {"bytes": False, "sizes": False, "exc": ""}
+    try:
+        with py7zr.SevenZipFile(io.BytesIO(raw), password=lay["password"]) as z:
+            obs["sizes"] = [f.uncompressed for f in z.files] == [len(d) for d in datas]
+            fac = py7zr.io.BytesIOFactory(1 << 26)
+            z.extractall(factory=fac)
+            obs["bytes"] = [fac.products[f"m{k}.bin"].read() for k in range(nfiles)] == datas
+    except Exception as e:  # noqa
+        obs["exc"] = type(e).__name__ + ":" + str(e)[:100]
+    finally:
+        ai.SevenZipDecompressor, ai.Folder.get_decompressor = real_dec, real_get
+    tr = []
+    if built:
+        b = built[0]
+        tr = [{"e": "coders", "n": b["n"]}] + [{"e": "pair", "i": i, "o": o} for i, o in b["pairs"]] + [{"e": "built", "order": b["order"], "main": b["main"]}]
+    return {"e": "graph", "obs": obs, "trace": tr, "parsed_as_written": (not built) or built[0]["pairs"] == pairs}
+
+
+def classify_graph(tr, l):
+    e = tr[l - 1] if 0 < l <= len(tr) else {}
+    return "folder-graph:pipeline-differs-from-the-bind-pairs", e
+
+
+def run_graphs(tier, rep, ev, R):
+    r = tlc.run("Folder", "Folder.cfg", workers=8, timeout=900)
+    ev.add_tlc(r, "Folder(coders<=4, reader follows the bind pairs)")
+    if not r.ok:
+        rep.note_drift(f"Folder.tla: the reader's walk violates {r.violated}; replay decides")
+    rn = tlc.run("Folder", "Folder_positional.cfg", workers=4, timeout=900)
+    ev.cov["negative_control_folder_graph"] = {"cfg": "Folder_positional.cfg (coders decoded in record order)", "violated": rn.violated or "NOTHING"}
+    if rn.ok:
+        raise MachineryError("negative control failed: the positional reader satisfies Folder.tla")
+    rg = tlc.run("GenFolder", "GenFolder.cfg", workers=1, timeout=900)
+    ev.add_tlc(rg, "GenFolder(coders<=4)")
+    graphs = [json.loads(b) if isinstance(b, str) else b for b in rg.prints.get("BEH", [])]
+    if len(graphs) < 159:
+        raise MachineryError(f"GenFolder emitted {len(graphs)} graphs, 159 expected")
+    # chains py7zr reads when written positionally (its own layout) are owed to every other graph as well
+    base = [({"n": len(ch), "pairs": [[k + 1, k] for k in range(len(ch) - 1)], "order": list(range(len(ch)))}, ch, "substream", 2, 1)
+            for n in GRAPH_CHAINS for ch in GRAPH_CHAINS[n]]
+    bouts = sandbox.run_cases(graph_case, base, timeout=40, nproc=16)
+    readable = {tuple(c[1]) for c, o in zip(base, bouts) if o.status == "ok" and o.value.get("e") == "graph" and o.value["obs"]["bytes"]}
+    ev.cov["graph_chains_readable_positionally"] = sorted("+".join(c) for c in readable)
+    ev.cov["graph_chains_refused_positionally"] = sorted("+".join(ch) for n in GRAPH_CHAINS for ch in GRAPH_CHAINS[n] if tuple(ch) not in readable)
+    cases = []
+    for g in graphs:
+        chains = [ch for ch in GRAPH_CHAINS[g["n"]] if tuple(ch) in readable]
+        if tier == "quick" and g["n"] == 4:
+            chains = R.sample(chains, min(1, len(chains)))
+        for ch in chains:
+            for crc, nfiles in (("none", 2), ("substream", 2), ("folder", 1), ("none", 1)):
+                if tier == "quick" and g["n"] >= 3 and R.random() < 0.5:
+                    continue
+                cases.append((g, ch, crc, nfiles, R.getrandbits(20)))
+    outs = sandbox.run_cases(graph_case, cases, timeout=40, nproc=16, slice_size=32)
+    traces, origins = [], []
+    for c, o in zip(cases, outs):
+        positional = c[0]["order"] == list(range(c[0]["n"]))
+        ev.case(("graph", json.dumps(c[0], sort_keys=True), "+".join(c[1]), c[2], c[3]), nontrivial=not positional)
+        origin = {"graph": c[0], "chain": c[1], "crc": c[2], "nfiles": c[3], "seed": c[4]}
+        if o.status != "ok":
+            if o.status != "skipped":
+                rep.violation(f"folder-graph:reader-{o.status}", f"{o.value} {o.detail[-300:]}", origin)
+            continue
+        v = o.value
+        if v.get("e") == "skip":
+            continue
+        if v["obs"]["exc"]:
+            rep.violation("folder-graph:valid-graph-refused", f"a folder whose bind pairs define the chain {c[0]['order']} ({'+'.join(c[1])}, crc {c[2]}) "
+                          f"is refused although the same chain is read in record order: {v['obs']['exc']}", origin)
+        elif not v["obs"]["bytes"]:
+            rep.violation("folder-graph:wrong-bytes", f"success with different content: chain {c[0]['order']} of {'+'.join(c[1])}, crc {c[2]}", origin)
+        elif not v["obs"]["sizes"]:
+            rep.violation("folder-graph:wrong-size-listed", f"listed sizes differ: chain {c[0]['order']} of {'+'.join(c[1])}, crc {c[2]}", origin)
+        if not v["parsed_as_written"]:
+            rep.violation("folder-graph:pairs-misparsed", "the bind pairs the reader holds are not the ones written", origin)
+        if v["trace"]:
+            traces.append(v["trace"])
+            origins.append(origin)
+    ev.cov["folder_graphs_from_tlc"] = len(graphs)
+    ev.cov["folder_graph_cases"] = len(cases)
+    validate("C06", traces, rep, ev, spec="TraceFolder", cfg="TraceFolder.cfg", classify_fn=classify_graph, origins=origins, batch=3000)
+
+
 def run(tier, rep, ev):
     py7zr = import_py7zr()
     R = rng("c06")
@@ -333,6 +480,8 @@ def run(tier, rep, ev):
         traces = [t for k, t in enumerate(traces) if k not in drop]
         origins = [t for k, t in enumerate(origins) if k not in drop]
     validate("C06", traces, rep, ev, spec="TraceHeader", cfg="TraceHeader.cfg", classify_fn=classify, origins=origins, batch=3000)
+    # ---- coder graphs
+    run_graphs(tier, rep, ev, R)
     # ---- third-party fixtures
     fx = list(layouts.fixture_archives())
     fouts = sandbox.run_cases(fixture_case, fx, timeout=120, nproc=16, slice_size=2)
@@ -374,7 +523,10 @@ def replay(path, rep, ev):
 
     r = unhex(json.load(open(path))["replay"])
     o = r.get("origin") or r
-    if "layout" in o:
+    if "graph" in o:
+        res = sandbox.run_one(graph_case, (o["graph"], o["chain"], o["crc"], o["nfiles"], o["seed"]), timeout=60)
+        print(json.dumps(res.value, indent=1)[:3000] if res.status == "ok" else (res.status, res.value, res.detail))
+    elif "layout" in o:
         res = sandbox.run_one(read_case, (o["layout"], o["seed"]), timeout=60)
         print(json.dumps(res.value, indent=1)[:3000] if res.status == "ok" else (res.status, res.value, res.detail))
     else:
